@@ -108,6 +108,10 @@ type c14Case struct {
 	Tables  []c14Table `json:"tables,omitempty"`  // in memory order
 	Dsdt    *c14Table  `json:"dsdt,omitempty"`
 	Alt     *c14Table  `json:"alt,omitempty"` // a second, unlisted table an FADT pointer may refer to
+	// Again: after the first DriverInit the firmware image changes - the tables with these
+	// indices get a byte damaged (intact ones) or repaired (damaged ones) - and DriverInit runs a
+	// second time on the same driver: what is registered must follow the image as it is then
+	Again []int `json:"again,omitempty"`
 }
 
 // winner returns the index of the first valid structure on a 16-byte boundary
@@ -862,6 +866,7 @@ func c14Check(cp *c14Case, e *c14Env) (fail *vlib.Failure, herr error) {
 		return vlib.Failf("DriverInit stopped with error %q (every listed table is mappable; bad checksums must be skipped)", kerr.Message), nil
 	}
 
+	verify := func(stage string) *vlib.Failure {
 	want := map[string]uintptr{}  // signature -> address of every table that must be registered
 	report := map[string]bool{}   // signatures that must be reported as corrupted
 	known := map[uintptr]string{} // address -> description
@@ -949,9 +954,53 @@ func c14Check(cp *c14Case, e *c14Env) (fail *vlib.Failure, herr error) {
 		if !wantX {
 			entry = "4-byte"
 		}
-		return vlib.Failf("after DriverInit (%s entries, root table revision %d, %d listed): %s", entry, c.RootRev, len(c.Tables), strings.Join(diffs, "; ")), nil
+		return vlib.Failf("after %sDriverInit (%s entries, root table revision %d, %d listed): %s", stage, entry, c.RootRev, len(c.Tables), strings.Join(diffs, "; "))
 	}
-	return nil, nil
+	return nil
+	}
+	if f := verify(""); f != nil {
+		return f, nil
+	}
+	if len(c.Again) == 0 {
+		return nil, nil
+	}
+	// ---- the image changes, the same driver is initialised again -----------------------
+	c.Tables = append([]c14Table(nil), c.Tables...)
+	changed := 0
+	for _, k := range c.Again {
+		if k < 0 || k >= len(c.Tables) || c.Tables[k].Fadt != nil {
+			continue
+		}
+		tb := &c.Tables[k]
+		p := (*byte)(unsafe.Pointer(e.addr(e.tables[k])))
+		if tb.Corrupt != 0 {
+			*(*byte)(unsafe.Add(unsafe.Pointer(p), tb.Corrupt)) -= tb.Delta
+			tb.Corrupt, tb.Delta = 0, 0
+		} else {
+			off := 8 + (k*7)%(tb.length()-8)
+			tb.Corrupt, tb.Delta = off, uint8(1+k%200)
+			*(*byte)(unsafe.Add(unsafe.Pointer(p), off)) += tb.Delta
+		}
+		changed++
+	}
+	if changed == 0 {
+		return nil, nil
+	}
+	e.log.Reset()
+	e.sink.Reset()
+	e.idCalls = nil
+	c14Win.protectAll(syscall.PROT_NONE)
+	e.arena.protectAll(syscall.PROT_NONE)
+	pc = vlib.CatchFault(func() { kerr = ad.DriverInit(c14Sink{&e.log}) })
+	c14Win.protectAll(syscall.PROT_READ | syscall.PROT_WRITE)
+	e.arena.protectAll(syscall.PROT_READ | syscall.PROT_WRITE)
+	if pc.Panicked {
+		return vlib.Failf("second DriverInit on the same driver (after %d tables of the image changed): %s", changed, e.explain(pc)), nil
+	}
+	if kerr != nil {
+		return vlib.Failf("second DriverInit on the same driver stopped with error %q", kerr.Message), nil
+	}
+	return verify(fmt.Sprintf("a second (the image changed in %d tables) ", changed)), nil
 }
 
 // c14Found describes what the probe returned in terms of the model.
@@ -1561,6 +1610,9 @@ func c14Gen(t *rapid.T, st *vlib.Stats) c14Case {
 	}
 	if acur > c14ArenaPages*c14Page {
 		t.Fatalf("VERIF-HARNESS C14 generator: image of %d bytes exceeds the arena", acur)
+	}
+	if len(c.Tables) > 0 && rapid.IntRange(0, 5).Draw(t, "again") == 0 {
+		c.Again = rapid.SliceOfN(rapid.IntRange(0, len(c.Tables)-1), 1, 3).Draw(t, "againtables")
 	}
 	return c
 }
